@@ -150,6 +150,10 @@ def _user(results, transforms):
 def run(sc, garbage):
     cfg = sc["cfg"]
     transforms = make_transforms(SCALE, OFFSET, [2.0, 4.0], [2.0]) if cfg["tf"] else None
+    if transforms is None and (cfg["R"] + cfg["P"] + len(sc["calls"])) % 2 == 0:
+        # a transform object that scales the non-linear constraint ONLY (variables and objectives are left alone, so the
+        # variable clauses of the validator see an untransformed run)
+        transforms = make_transforms(con_scales=[2.0])
     DesignPlugin.design = [[[((p + 1) if v == 0 else -(p + 2)) for v in range(2)] for p in range(cfg["P"])]] * cfg["R"]
     config = build_config(cfg, transforms)
     ev = LabelEvaluator(cfg, garbage, sc.get("nanreal", 0))
@@ -166,6 +170,7 @@ def run(sc, garbage):
         res, outcome = outcome_of(lambda: ee.calculate(x, compute_functions=k in ("F", "FG"), compute_gradients=k in ("G", "FG")))
         ncalls = len(ev.calls) - before
         e = {"ev": "Call", "k": k, "pt": pt, "batch": batch, "R": R, "P": P, "tf": bool(cfg["tf"]), "outcome": outcome,
+             "nanreal": int(sc.get("nanreal", 0)),
              "ncalls": ncalls, "reqkind": "none", "labels": [], "uvars": [], "ovars": [], "active": [], "summary": [], "values": [],
              "weights": [[num(1.0)] * R] * 3, "failedrow": [False] * R}
         if outcome == "ok" and ncalls == 1:
